@@ -85,7 +85,8 @@ pub fn render_step(r: &mut Rng, st: &StepSpec, allow_sugar: bool) -> (String, ch
             2 => words.push(m.to_string()),
             _ => {
                 let pos = 1 + r.below(words.len());
-                words.insert(pos, format!("{m}=true"));
+                // (`true` in any case: the value of a flag is compared without regard to case)
+                words.insert(pos, format!("{m}={}", r.pick(&["true", "true", "TRUE", "True", "tRuE"])));
             }
         }
     }
